@@ -357,6 +357,15 @@ Section Order.
   Qed.
 End Order.
 
+(* S1 is satisfiable: the insertion sort of the model meets the contract of sort.Sort on EVERY input
+   (asymmetry of Less needs no hypothesis on the ids) *)
+Theorem sort_legacy_sort_spec : forall first last, sort_spec (legacy_less first last) (sort_legacy first last).
+Proof.
+  intros first last l. split.
+  - apply isort_perm.
+  - apply isort_sorted. intros a b _ _. apply less_asym.
+Qed.
+
 (* ---------- the decidable totality check used by the correspondence is sound ---------- *)
 Section TotalCheck.
   Variable first last : list string.
